@@ -145,11 +145,13 @@ def chopAfterLastSlash (p : Bytes) : Option Bytes :=
 
 /-- `addRelativePath(relUrl)` (non-urn): replaces the last path segment; whether the memoised forms are cleared is a fact about
 the staged code (`PurgeTables.addRelativePathTouches`) -/
+def mergePath (path rel : Bytes) : Bytes :=
+  (match chopAfterLastSlash path with
+   | none => [slash]          -- no slash: the whole path is replaced by "/"
+   | some b => b) ++ rel      -- everything after the last slash is replaced
+
 def addRelativePath (u : Uri) (rel : Bytes) : Uri :=
-  let base := match chopAfterLastSlash u.path with
-    | none => [slash]
-    | some b => b
-  { u with path := base ++ rel, absMemo := if PurgeTables.addRelativePathTouches then none else u.absMemo }
+  { u with path := mergePath u.path rel, absMemo := if PurgeTables.addRelativePathTouches then none else u.absMemo }
 
 /-- `HttpRequest::effectiveRequestUri()` -/
 def effectiveRequestUri (m : Nat) (u : Uri) : Bytes :=
